@@ -144,6 +144,11 @@ Definition lock_pairs : list (string * string) :=
 Definition lock_order_violations : list (string * string) :=
   filter (fun p => existsb (fun q => String.eqb (fst p) (snd q) && String.eqb (snd p) (fst q)) lock_pairs) lock_pairs.
 
+(* A mutex locked in a function must be released on every way out of it: lock_leak_table lists the
+   returns (and function ends) reached with such a lock held and no deferred Unlock covering it. A leaked
+   lock blocks every later caller for good. *)
+Definition leaked_locks : list (string * string) := lock_leak_table.
+
 (* Interprocedural lock order. acquire_table lists every Lock/RLock with the locks already held;
    call_lock_table lists every call inside the package with the locks held at the call site.
    A function's acquisition closure is what it or anything it calls may lock. An ordered pair
